@@ -343,6 +343,14 @@ def r7(c):
             okf = ff.kind == 'call' and ff.cs.is_('rodbus::common::frame::FunctionField::unknown') and q.sem(b, ff.cs.args[0]).kind == 'call' and q.sem(b, ff.cs.args[0]).cs is rd
             h = q.sem(b, cs.args[2])
             ok = ex == (EXC, 'IllegalFunction') and okf and q.sem_is_name(b, h, 'frame') and any('header' in p for p in h.proj)
+        if eff:
+            sv = [cs for cs in b.calls('rodbus::server::task::SessionTask::serves')]
+            esc = []
+            for cs in sv:
+                esc += q.bool_edges(b, cs)['false']
+            oka, leak = q.always_passes(b, e, {eff[0].node}, esc)
+            c.ob('unknown-function/always', oka, 'an unsupported function code is always answered (the only silent exit: the frame is not addressed to a unit this server serves)',
+                 'returns reachable without the reply: %s' % [loc_of(b, n[1]) for n in leak], loc_of(b, e[1]))
         c.ob('unknown-function/reply', ok, 'unknown function: the only effect is reply_with_error_generic(frame.header, FunctionField::unknown(byte), IllegalFunction)',
              str([x.callee for x in eff]), loc_of(b, e[1]))
     # parse error
@@ -358,6 +366,14 @@ def r7(c):
             f = q.sem(b, ff.extra['a'][0]) if (ff.kind == 'agg' and ff.extra.get('variant') == 'Exception' and norm(ff.extra.get('adt', '')) == 'rodbus::common::frame::FunctionField' and not ff.proj) else None
             h = q.sem(b, cs.args[2])
             ok = ex == (EXC, 'IllegalDataValue') and f is not None and f.kind == 'call' and f.cs is get and q.sem_is_name(b, h, 'frame') and any('header' in p for p in h.proj)
+        if eff:
+            sv = [cs for cs in b.calls('rodbus::server::task::SessionTask::serves')]
+            esc = []
+            for cs in sv:
+                esc += q.bool_edges(b, cs)['false']
+            oka, leak = q.always_passes(b, e, {eff[0].node}, esc)
+            c.ob('parse-error/always', oka, 'a malformed / over-limit request is always answered (the only silent exit: not addressed to a unit this server serves)',
+                 'returns reachable without the reply: %s' % [loc_of(b, n[1]) for n in leak], loc_of(b, e[1]))
         c.ob('parse-error/reply', ok, 'malformed / over-limit request: the only effect is an exception reply (frame.header, FunctionField::Exception(function), IllegalDataValue)', str([x.callee for x in eff]), loc_of(b, e[1]))
     g = P.fn(REPLY_ERR_G)
     fe = one(g.calls(FORMAT_EX), 'format_ex in reply_with_error_generic')
